@@ -230,9 +230,39 @@ func fill(r *vh.Rng, o interface{}, s *spec, big bool) {
 	}
 }
 
+// fillTransient randomises the fields that are not compared (Drop, Opt, AbstractService ids, pack header):
+// they never travel, but they are inputs an encoder could look at.
+func fillTransient(r *vh.Rng, o interface{}, s *spec) {
+	for _, l := range transientLeaves(o, s) {
+		v := l.v
+		switch v.Kind() {
+		case reflect.Bool:
+			v.SetBool(r.Chance(35))
+		case reflect.Uint8:
+			v.SetUint(uint64(r.PickInt([]int{0, 0, 1, 2, 3, 255})))
+		case reflect.Int32:
+			if r.Chance(50) {
+				v.SetInt(genInt(r, 32))
+			}
+		case reflect.Int64, reflect.Int:
+			if r.Chance(50) {
+				v.SetInt(genInt(r, 64))
+			}
+		}
+	}
+	// the same through the setters of the Step interface
+	if st, ok := o.(step.Step); ok && r.Chance(30) {
+		st.SetDrop(r.Bool())
+		if r.Bool() {
+			st.SetTrue(step.FLAG_ALREADY_SET_INDEX)
+		}
+	}
+}
+
 func newFilled(r *vh.Rng, s *spec, big bool) interface{} {
 	o := s.mk()
 	fill(r, o, s, big)
+	fillTransient(r, o, s)
 	return o
 }
 
@@ -378,6 +408,9 @@ func generate(c *ctx, r *vh.Rng) {
 	// 3b. encodings of older agents, raw streams behind unregistered type codes
 	genLegacy(c, r)
 	genRawStreams(c, r)
+	// 3c. service-record streams; decoding into re-used objects
+	genSvcStreams(c, r)
+	genReuse(c, r)
 	// 4. histories: hidden shared state / aliasing between encodings and between decodings
 	genHistories(c, r)
 	// 5. observations outside the property's quantifier (registered types only): recorded, not judged
@@ -480,6 +513,10 @@ func runReplay(c *ctx, path string) {
 		switch rc.Op {
 		case "history":
 			replayHistory(c, rc)
+		case "svc-stream":
+			c.checkSvcStream(items)
+		case "reuse":
+			c.checkReuse(items[0].s, items[0].o, items[1].o, rc.Mutate)
 		case "legacy":
 			s := specOf("TxRecord")
 			c.checkLegacy(fromRec(s, rc.Items[0].Rec).(*service.TxRecord), rc.Ver, rc.MtidFlag, rc.CallerFlag, vh.UnHex(rc.Rest))
